@@ -35,9 +35,10 @@ static void arm_watchdog(double seconds) {
   it.it_value.tv_sec = (long)seconds; it.it_value.tv_usec = (long)((seconds - (long)seconds) * 1e6);
   setitimer(ITIMER_VIRTUAL, &it, nullptr);
 }
+static std::string g_refstate = "built"; // state of the object the current varied step is compared with
 static void begin(const char *phase, const std::string &step) {
   arm_watchdog(15.0);
-  fprintf(g_out, "{\"begin\":%llu,\"phase\":\"%s\",\"step\":%s}\n", (unsigned long long)g_run_index, phase, jstr(step).c_str());
+  fprintf(g_out, "{\"begin\":%llu,\"phase\":\"%s\",\"step\":%s,\"refstate\":\"%s\"}\n", (unsigned long long)g_run_index, phase, jstr(step).c_str(), g_refstate.c_str());
   fflush(g_out);
 }
 
@@ -46,6 +47,7 @@ static std::string g_shape; // history shape signature
 
 struct SymFailure { size_t call; std::string what; std::string report; };
 static std::vector<SymFailure> g_sym;   // symmetric failures (isolated reference calls that did not survive)
+static uint64_t g_mask_hash = FNV_INIT; // which reference calls were excluded: universes are only comparable when equal
 
 static void emit(const std::string &verdict, const std::string &cls, const std::string &detail) {
   std::string st = "{";
@@ -56,10 +58,10 @@ static void emit(const std::string &verdict, const std::string &cls, const std::
   for (size_t i = 0; i < g_sym.size() && i < 12; i++) { if (i) sym += ","; sym += "{\"what\":" + jstr(g_sym[i].what) + ",\"report\":" + jstr(g_sym[i].report) + "}"; }
   sym += "]";
   fprintf(g_out, "{\"run\":%llu,\"seed\":%llu,\"harness\":\"history\",\"mode\":%s,\"spec\":%s,\"verdict\":%s,\"class\":%s,\"detail\":%s,"
-                 "\"kinds\":%s,\"shape\":%s,\"obs_img\":\"%s\",\"obs_ans\":\"%s\",\"obs_bans\":\"%s\",\"obs_lans\":\"%s\",\"n_img\":%zu,\"n_ans\":%zu,\"stats\":%s,\"n_sym\":%zu,\"sym\":%s}\n",
+                 "\"kinds\":%s,\"shape\":%s,\"obs_img\":\"%s\",\"obs_ans\":\"%s\",\"obs_bans\":\"%s\",\"obs_lans\":\"%s\",\"n_img\":%zu,\"n_ans\":%zu,\"stats\":%s,\"n_sym\":%zu,\"mask\":\"%s\",\"sym\":%s}\n",
           (unsigned long long)g_run_index, (unsigned long long)g_run_seed, jstr(g_mode).c_str(), jstr(g_spec).c_str(), jstr(verdict).c_str(), jstr(cls).c_str(), jstr(detail).c_str(),
           jstr(g_kinds).c_str(), jstr(g_shape).c_str(), hex64(g_obs.group("img:")).c_str(), hex64(g_obs.group("ans:")).c_str(), hex64(g_obs.group("bans:")).c_str(),
-          hex64(g_obs.group("lans:")).c_str(), g_obs.count("img:"), g_obs.count("ans:") + g_obs.count("bans:") + g_obs.count("lans:"), st.c_str(), g_sym.size(), sym.c_str());
+          hex64(g_obs.group("lans:")).c_str(), g_obs.count("img:"), g_obs.count("ans:") + g_obs.count("bans:") + g_obs.count("lans:"), st.c_str(), g_sym.size(), hex64(g_mask_hash).c_str(), sym.c_str());
   if (g_verbose) for (auto &it : g_obs.items) fprintf(g_out, "  obs %s %s\n", it.first.c_str(), hex64(it.second).c_str());
   fflush(g_out);
 }
@@ -73,6 +75,7 @@ static void emit(const std::string &verdict, const std::string &cls, const std::
 // reference execution survived -- a death of the parent on one of those is asymmetric.
 static bool g_in_child = false;
 struct Probe { ScriptRun run; std::vector<char> skip; };
+
 
 static Probe probe_script(StringDictionary *d, const std::vector<Call> &script, const std::string &ctx) {
   Probe pr; pr.skip.assign(script.size(), 0);
@@ -126,7 +129,7 @@ static Probe probe_script(StringDictionary *d, const std::vector<Call> &script, 
       else if (magic == 0xF1F1F1F1u) { finished = true; off += 8; }
       else break;
     }
-    if (finished) { pr.run = run; g_stats["probe_forks"] += attempt + 1; return pr; }
+    if (finished) { pr.run = run; g_stats["probe_forks"] += attempt + 1; g_mask_hash = fnv1a(g_mask_hash, pr.skip.data(), pr.skip.size()); return pr; }
     if (inflight < 0) { // died outside a call (iterator teardown): give up on this script
       SymFailure f; f.call = script.size(); f.what = ctx + " teardown"; f.report = err.substr(0, 3000); g_sym.push_back(f);
       pr.skip.assign(script.size(), 1); pr.run = run; return pr;
@@ -248,6 +251,9 @@ static StringDictionary *make_object(const Triple &t, Source &src, Prng &r) {
 // ====================================================================================================
 struct C14Plan {
   Triple t; Source src;
+  // optional "noise" client: its calls go to a second dictionary of the same kind (different input),
+  // so that state shared between instances (a static cache, a class-level scratch buffer) is disturbed
+  int noise_client = -1; Triple nt; Source nsrc;
   std::vector<std::vector<Call>> scripts;
   std::vector<int> order;
 };
@@ -262,10 +268,12 @@ static int run_c14_plan(C14Plan &pl, Prng &r, bool c16_checks) {
   size_t k = pl.scripts.size();
   g_shape = std::string(pl.src.loaded ? "loaded" : "built") + "/clients" + std::to_string(k);
   std::vector<ScriptRun> ref(k); std::vector<std::vector<char>> skip(k);
+  g_refstate = pl.src.loaded ? "loaded" : "built";
   begin("ref", "isolated-reference");
   for (size_t c = 0; c < k; c++) {
-    StringDictionary *d = make_object(t, pl.src, r);
-    if (!d) { emit("precondition_failed", "object_unavailable", "build/load returned NULL for " + triple_str(t)); return 0; }
+    bool noise = (int)c == pl.noise_client;
+    StringDictionary *d = noise ? make_object(pl.nt, pl.nsrc, r) : make_object(t, pl.src, r);
+    if (!d) { emit("precondition_failed", "object_unavailable", "build/load returned NULL for " + triple_str(noise ? pl.nt : t)); return 0; }
     Probe pr = probe_script(d, pl.scripts[c], std::string(kind_name(t.kind)) + (pl.src.loaded ? " loaded" : " built"));
     ref[c] = pr.run; skip[c] = pr.skip;
     delete d;
@@ -288,6 +296,8 @@ static int run_c14_plan(C14Plan &pl, Prng &r, bool c16_checks) {
   begin("var", "interleaved");
   StringDictionary *shared = make_object(t, pl.src, r);
   if (!shared) { emit("violation", "object_unavailable_second_time", triple_str(t)); return 1; }
+  StringDictionary *noiseobj = nullptr;
+  if (pl.noise_client >= 0) { noiseobj = make_object(pl.nt, pl.nsrc, r); if (!noiseobj) { emit("violation", "object_unavailable_second_time", triple_str(pl.nt)); return 1; } g_stats["noise_dictionary"] = 1; }
   bool savable = true;
   if (c16_checks) { begin("ref", "save-before-unsupported"); savable = probe_save(shared, std::string(kind_name(t.kind)) + (pl.src.loaded ? " loaded" : " built")); begin("var", "interleaved"); }
   std::vector<ClientState> cs(k); std::vector<size_t> pos(k, 0);
@@ -297,7 +307,7 @@ static int run_c14_plan(C14Plan &pl, Prng &r, bool c16_checks) {
     if (pos[c] >= pl.scripts[c].size()) continue;
     const Call &call = pl.scripts[c][pos[c]];
     if (skip[c][pos[c]]) { pos[c]++; g_stats["calls_skipped_symmetric"]++; continue; }
-    CallResult cr = exec_call(shared, cs[c], call);
+    CallResult cr = exec_call((int)c == pl.noise_client ? noiseobj : shared, cs[c], call);
     g_stats["calls_compared"]++;
     int open = 0; for (auto &s : cs) open += s.open_count();
     if (open > maxopen) maxopen = open;
@@ -321,6 +331,7 @@ static int run_c14_plan(C14Plan &pl, Prng &r, bool c16_checks) {
     g_obs.add("img:after-unsupported", dig_bytes(img));
   }
   delete shared;
+  delete noiseobj;
   g_stats["max_open_iterators"] = maxopen;
   g_stats["clients"] = (long)k;
   size_t switches = 0; for (size_t i = 1; i < pl.order.size(); i++) switches += pl.order[i] != pl.order[i - 1];
@@ -339,6 +350,13 @@ static C14Plan gen_c14(Prng &r, bool force_unsupported) {
   QueryPool q = make_pool(pl.t.ss.v, r, 16);
   bool unsup = force_unsupported || r.chance(1, 4);
   for (int c = 0; c < k; c++) pl.scripts.push_back(gen_script(pl.t.kind, pl.t.p, q, r, (int)r.range(3, 12), unsup));
+  if (k >= 2 && r.chance(1, 3)) {
+    pl.noise_client = (int)r.below((uint64_t)k);
+    pl.nt = make_triple((uint32_t)r.below((uint64_t)g_catalogue), pl.t.kind, (int)r.below(PARAM_GRID));
+    pl.nsrc.loaded = pl.src.loaded; pl.nsrc.opt = pl.src.opt;
+    QueryPool nq = make_pool(pl.nt.ss.v, r, 16);
+    pl.scripts[(size_t)pl.noise_client] = gen_script(pl.nt.kind, pl.nt.p, nq, r, (int)r.range(3, 12), unsup);
+  }
   std::vector<size_t> remain; for (auto &s : pl.scripts) remain.push_back(s.size());
   // seeded interleaving; sticky with probability 1/2 so that both fine and coarse interleavings occur
   int cur = -1; bool sticky = r.chance(1, 2);
@@ -380,6 +398,7 @@ static std::vector<Call> parse_script(const std::string &s) {
 static std::string c14_spec(const C14Plan &pl) {
   std::ostringstream o;
   o << "set=" << pl.t.set << "|kind=" << kind_name(pl.t.kind) << "|pidx=" << pl.t.pidx << "|loaded=" << (int)pl.src.loaded << "|opt=" << pl.src.opt << "|clients=" << pl.scripts.size();
+  if (pl.noise_client >= 0) o << "|nclient=" << pl.noise_client << "|nset=" << pl.nt.set << "|npidx=" << pl.nt.pidx;
   for (size_t c = 0; c < pl.scripts.size(); c++) o << "|s" << c << "=" << script_str(pl.scripts[c]);
   o << "|order="; for (size_t i = 0; i < pl.order.size(); i++) { if (i) o << "."; o << pl.order[i]; }
   return o.str();
@@ -394,6 +413,7 @@ static C14Plan c14_from_spec(const std::map<std::string, std::string> &m) {
   pl.t = make_triple((uint32_t)strtoul(m.at("set").c_str(), 0, 10), kind_from(m.at("kind")), atoi(m.at("pidx").c_str()));
   pl.src.loaded = atoi(m.at("loaded").c_str()) != 0; pl.src.opt = (uint)atoi(m.at("opt").c_str());
   int k = atoi(m.at("clients").c_str());
+  if (m.count("nclient")) { pl.noise_client = atoi(m.at("nclient").c_str()); pl.nt = make_triple((uint32_t)strtoul(m.at("nset").c_str(), 0, 10), pl.t.kind, atoi(m.at("npidx").c_str())); pl.nsrc.loaded = pl.src.loaded; pl.nsrc.opt = pl.src.opt; }
   for (int c = 0; c < k; c++) { auto it = m.find("s" + std::to_string(c)); pl.scripts.push_back(it == m.end() ? std::vector<Call>() : parse_script(it->second)); }
   const std::string &o = m.at("order"); size_t i = 0;
   while (i < o.size()) { size_t j = o.find('.', i); if (j == std::string::npos) j = o.size(); if (j > i) { int c = atoi(o.substr(i, j - i).c_str()); if (c >= 0 && c < k) pl.order.push_back(c); } i = j + 1; }
@@ -423,6 +443,7 @@ static int run_c08(Prng &r, int kind_forced, const std::string &ops_override) {
   uint opt = takes_load_option(t.kind) ? (uint)r.range(1, 3) : 1;
   g_spec += "|triple=" + triple_str(t) + "|ops=" + ops + "|opt=" + std::to_string(opt) + "|battery=" + std::to_string((int)with_battery);
   g_shape = (with_battery ? "bat/" : "nobat/") + ops;
+  g_refstate = "built";
   begin("ref", "build");
   StringDictionary *A = build_dict(t.kind, t.ss.v, t.p);
   ScriptRun b0; std::vector<char> sk(bat.size(), 0);
@@ -488,7 +509,7 @@ static int run_c08(Prng &r, int kind_forced, const std::string &ops_override) {
     }
     case 'L': case 'G': {
       bool generic = op == 'G';
-      if (generic && t.kind == K_BLOCKS) generic = false; // covered by C06 (no dispatcher case); not a save matter
+      g_refstate = "loaded";
       begin("ref", generic ? "generic-load" : "own-load");
       std::string f = img1 + poison(r, 32);
       ChunkPolicy cp = ChunkPolicy::draw(r, f.size());
@@ -525,6 +546,7 @@ static int run_c08(Prng &r, int kind_forced, const std::string &ops_override) {
         for (size_t i = 0; i < b.digests.size(); i++) if (!skl[i] && b.digests[i] != bl.digests[i]) { emit("violation", "resaved_image_not_equivalent", "C08.e " + triple_str(t) + " call " + call_str(bat[i]) + " answers differently after load(save(load(img)))"); return 1; }
       }
       delete l2.d;
+      g_refstate = "built";
       break;
     }
     }
@@ -551,6 +573,7 @@ static int run_c06(Prng &r, int kind_forced) {
     opts.push_back(takes_load_option(t.kind) ? (uint)r.range(1, 3) : 1);
   }
   g_shape = std::string(strong ? "strong" : "weak") + "/images" + std::to_string(m);
+  g_refstate = strong ? "built" : "loaded";
   for (int j = 0; j < m; j++) g_spec += "|t" + std::to_string(j) + "=" + triple_str(ts[(size_t)j]);
   for (int j = 0; j < m; j++) {
     const Triple &t = ts[(size_t)j];
@@ -730,7 +753,7 @@ static int run_c16(uint64_t index, Prng &r, int sampled_per_block) {
 // driver
 // ====================================================================================================
 static int run_mode(const std::string &mode, uint64_t base, uint64_t index, const std::map<std::string, std::string> &ov) {
-  g_obs = Obs(); g_stats.clear(); g_kinds.clear(); g_shape.clear(); g_sym.clear();
+  g_obs = Obs(); g_stats.clear(); g_kinds.clear(); g_shape.clear(); g_sym.clear(); g_refstate = "built"; g_mask_hash = FNV_INIT;
   uint64_t tagv = mode == "C14" ? 0xC14 : mode == "C08" ? 0xC08 : mode == "C06" ? 0xC06 : mode == "C16" ? 0xC16 : 0xC07;
   g_run_seed = ov.count("runseed") ? strtoull(ov.at("runseed").c_str(), 0, 10) : mix64(mix64(base, tagv), index);
   Prng r; r.seed(g_run_seed);
